@@ -9,10 +9,13 @@ from cxxheaderparser import types as T
 PID = "C03"
 TITLE = "Class bodies: member kinds, access levels and special members are right"
 THEOREM_FILE = "Props/C03.v"
-MODELLED = ("the access level attached to a member is proved on the regenerated block machine (access_in_force_partial); base clauses over "
-            "identifier-named bases (Parse/BaseClause.v) and field statements with specifiers, bit-fields and initialisers (Parse/Members.v) and method tails with constructor initialiser lists (Parse/MethodTail.v) are modelled by hand, proved and tied differentially; member kinds, "
-            "constructor/destructor/operator recognition, method qualifiers, bases and anonymous-id sharing live in the parser bulk and are "
-            "decided by the AST-first class search")
+MODELLED = ("the access level attached to a member is proved on the regenerated block machine (access_in_force_partial); modelled by hand, proved "
+            "and tied differentially: base clauses (BaseClause), the class head (Members / class_head), the decision table of "
+            "_maybe_parse_class_enum_decl (ClassEnum), constructor / destructor recognition (CtorDtor), method tails with constructor initialiser "
+            "lists (MethodTail), field and typedef statements (Members) and WHOLE member statements -- fields and methods mixed in one declarator "
+            "list, endings, constructors and destructors (MemberStmt, mirroring _parse_declarations / _parse_decl / _parse_function / _parse_field "
+            "in a class body). NOT modelled (decided by the AST-first class search): operator and conversion-operator names, friend / typedef / "
+            "template / using members as dispatched around the statement, trailing return types, requires-clauses on methods, anonymous-id sharing")
 ASSUMPTIONS = []
 
 
@@ -1126,14 +1129,18 @@ def replay(ctx, case):
     return [m] if m else []
 
 
-LEVEL_TEXT = ("PARTIAL. Proved in Coq for base lists of any length: every base is reported once, in order, with its virtual / pack flags, and a base "
-              "without an access keyword has the class-key default whatever the bases before it said (base_clause_decodes_partial; hand model tied "
-              "differentially on valid and mutated clauses). Proved in Coq on the regenerated block machine, for every prefix of events and any nesting depth: the access delivered with a "
-              "member equals the backward-scan specification - class-key default until the first specifier of the SAME class body, then the most "
-              "recent one; nested classes before or around it do not matter (access_in_force_partial). Everything else the property lists "
-              "(exactly-once and order of members, kinds, constructor/destructor/operator recognition, the method qualifiers, bases with "
-              "access/virtual/pack, anonymous-id sharing) is decided by an AST-first class search whose expectation is built by the generator; "
-              "end-to-end correspondence of the block machine with the real callback stream ties the proved part.")
-LEVEL_NOTE = ("Trusted: Coq kernel, atom vocabulary, extraction, driver, harness. Member heads (_parse_decl, _parse_method_end) are not "
-              "modelled: search only.")
-TECHNIQUE = "Coq invariant proof (backward-scan access specification) over regenerated effect atoms + AST-first class-definition search"
+LEVEL_TEXT = ("PARTIAL. Proved in Coq, for inputs of any size: a member statement `spec* T spec* m1, ..., mn <end>` whose declarators are fields (any "
+              "legal object type, bit-field width, initialiser) and methods (any legal return type and parameter list, qualifiers in any order) in any "
+              "mixture yields exactly one member per declarator, in order, each of its own kind, with its own qualifier set and the ending written "
+              "(member_statement_decodes_partial); `C(...) quals end` / `~C(...) quals end` in class C is one method flagged constructor / destructor "
+              "without return type, member initialiser lists skipped exactly (special_member_statement_decodes_partial, constructor_in_class ...); "
+              "base lists of any length report every base once, in order, with its flags and the class-key default access per base "
+              "(base_clause_decodes_partial); the decision table of elaborated-type members (forward / friend / class / enum and the reject rules); "
+              "and, on the regenerated block machine, the access delivered with a member equals the backward-scan specification for every prefix of "
+              "events and any nesting depth (access_in_force_partial). Tie: every model is extracted and run beside parse_string / the real method "
+              "on valid and mutated token lists; the mirrored functions are AST-digest pinned; the block machine is run against the real callback "
+              "stream. Operators, friend / typedef / template / using members, trailing return types and anonymous-id sharing are decided by the "
+              "AST-first class search whose expectation is built by the generator.")
+LEVEL_NOTE = ("Trusted: Coq kernel, atom vocabulary, extraction, driver, harness. The hand-written models mirror the Python code; their agreement "
+              "is checked by the differential runs, not proved.")
+TECHNIQUE = "Coq proofs (whole member statements, constructors / destructors, base clauses, method tails: unbounded; backward-scan access specification over regenerated effect atoms) + differential runs + AST-digest pins + AST-first class-definition search"
